@@ -9,7 +9,10 @@ Generator : a chain shape (tree of && / || / and / or / not / parentheses over 1
             `for`, body of a `def`), 0-2 following statements that log, and the two raise flags in
             {T,F}^2.  Stages are recording callable aliases `r<code>` / `e<code>` (the e-variant writes a
             word to its stdout, which decides the truth value of `$( )`); a 10 % slice uses the external
-            helper `vexit N`.  The product space of small chains is enumerated (<= 2 leaves quick,
+            helper `vexit N`; in a quarter of the cases stages may be commands that cannot be started at
+            all: a name that is nowhere on the (controlled) $PATH, a 0644 file in a $PATH directory, a 0644
+            file named by absolute path - at any stage, leaf position, capture form, and inside @$( ).
+            The product space of small chains is enumerated (<= 2 leaves quick,
             <= 3 leaves thorough); larger shapes, pipelines, decorators and statement kinds are drawn by
             Hypothesis.  A process tier runs sampled programs with `python -m xonsh --no-rc` both as
             `-c` text and as a script file.
@@ -21,7 +24,8 @@ Oracle    : a reference interpreter written from docs/error_handling.rst, docs/t
             $XONSH_SUBPROC_RAISE_ERROR and the last pipeline that ran failed, unless it is !( ) or its
             last stage is @error_ignore'd; @error_raise raises at its command regardless of flags and
             position; with $XONSH_SUBPROC_CMD_RAISE_ERROR a failing command raises at once; a nested
-            @$( ) is a chain of its own; once a statement raises nothing later runs.  Where the
+            @$( ) is a chain of its own; a command that cannot be started is a failing command with
+            some non-zero exit status; once a statement raises nothing later runs.  Where the
             documentation is silent or contradicts itself the model forks and both outcomes are accepted
             (see `assumptions`).  Compared: ordered log of the commands that ran (stages of one pipeline
             as a set), exception presence / returncode / raising command, which later statements ran;
@@ -46,7 +50,7 @@ from vlib.common import Failure, Stats
 PROP = "C05"
 LEVEL = "exploration"
 RULE = ("chain tree (and/or/not/parentheses, 1-6 leaves) x pipeline of 1-3 stages per leaf x exit code per stage x "
-        "capture form per leaf x decorators x lexical class x statement kind x following statements x the two raise "
+        "capture form per leaf x decorators x lexical class x startable/not-found/non-executable stages x statement kind x following statements x the two raise "
         "flags; small chains enumerated completely, the rest drawn by Hypothesis; non-trivial = some stage fails and "
         "(>= 2 leaves or a form other than bare or a decorator); distinct = hash of (tree with codes, forms, "
         "decorators, classes; statement kind; flags)")
@@ -531,7 +535,7 @@ def _setup(scratch, quiet_fd2=False):
                 except Exception:  # noqa: BLE001
                     pass
             if emit and stdout is not None:
-                stdout.write("w\n")
+                stdout.write("zqw5\n")
             return code
 
         alias.__name__ = "%s%d" % ("e" if emit else "r", code)
@@ -1000,7 +1004,7 @@ def _mk(code, emit):
             except Exception:
                 pass
         if emit and stdout is not None:
-            stdout.write("w\\n")
+            stdout.write("zqw5\\n")
         return code
     return _a
 for _c in (0, 1, 2, 127, 255):
